@@ -149,6 +149,10 @@ var entities = refEnv.Store.ToImpl()
 var request = cedar.Request{Principal: types.NewEntityUID("U", "alice"), Action: types.NewEntityUID("Action", "view"), Resource: types.NewEntityUID("G", "g1"),
 	Context: refEnv.Context.ToImpl().(types.Record)}
 
+// request2 differs from request in every part that the realisations read
+var request2 = cedar.Request{Principal: types.NewEntityUID("U", "bob"), Action: types.NewEntityUID("Action", "edit"), Resource: types.NewEntityUID("U", "alice"),
+	Context: types.NewRecord(types.RecordMap{"a": types.Long(2), "missing": types.True, "big": types.Long(0)})}
+
 type item struct {
 	forbid bool
 	atom   int
@@ -340,6 +344,20 @@ func checkSeq(t *core.T, items []item) {
 	pm := ps.Map()
 	dec, diag = cedar.Authorize(pm, entities, request)
 	cmp("Authorize(PolicyMap)", dec, diag)
+	// the policy set just used answers a DIFFERENT request exactly as a freshly parsed one does
+	// (nothing learnt from the first request is carried over), and the first request again
+	{
+		fresh, _ := cedar.NewPolicySetFromBytes("doc.cedar", []byte(b.doc))
+		d2a, g2a := cedar.Authorize(ps, entities, request2)
+		d2b, g2b := cedar.Authorize(fresh, entities, request2)
+		o2a, _ := observed(d2a, g2a)
+		o2b, _ := observed(d2b, g2b)
+		if o2a.String() != o2b.String() {
+			t.Fail("reused-policy-set-differs-from-fresh", in("second request on the same PolicySet"), o2b.String(), o2a.String())
+		}
+		dec, diag = cedar.Authorize(ps, entities, request)
+		cmp("Authorize(PolicySet) again after another request", dec, diag)
+	}
 	// the same document read statement by statement through the streaming Decoder: all
 	// policies are decoded first and authorized afterwards
 	{
